@@ -133,6 +133,23 @@ func c15Scenario() *explore.Scenario {
 				}
 				what += " prebuilt"
 			}
+			// the caller changes its mind about the (secret) name with the documented setter, before the
+			// handshake: the new name is the one to hide and to deliver, the old one stays hidden too
+			oldSecret := ""
+			if x.Choose("cli.setsni", 2) == 1 {
+				inner := prep
+				oldSecret, secret = secret, "a.example"
+				prep = func(u *tls.UConn) error {
+					if inner != nil {
+						if err := inner(u); err != nil {
+							return err
+						}
+					}
+					u.SetSNI("a.example")
+					return nil
+				}
+				what += " then-SetSNI(another secret name)"
+			}
 			hs := peer.Run(ccfg, id, scfg, peer.Opts{Prepare: prep, Echo: true, KeepOpen: true})
 			defer hs.Finish()
 			r.Nontrivial = true
@@ -145,6 +162,11 @@ func c15Scenario() *explore.Scenario {
 			// (1) the secret name never appears in what the client wrote (any case)
 			if i := bytes.Index(bytes.ToLower(stream), []byte(strings.ToLower(secret))); i >= 0 {
 				r.Violate("C15|secret-name-on-the-wire", "%s: Config.ServerName appears in the client's byte stream at offset %d", what, i)
+			}
+			if oldSecret != "" {
+				if i := bytes.Index(bytes.ToLower(stream), []byte(strings.ToLower(oldSecret))); i >= 0 {
+					r.Violate("C15|secret-name-on-the-wire|the-name-before-SetSNI", "%s: the name configured before SetSNI appears in the client's byte stream at offset %d", what, i)
+				}
 			}
 			msgs := peer.ClientHelloMsgs(stream)
 			if len(msgs) == 0 {
@@ -229,7 +251,7 @@ func c15Scenarios(thorough bool) []*explore.Scenario {
 func init() {
 	register(&Prop{ID: "C15", Level: "exploration", Variant: "A", Scenarios: c15Scenarios,
 		Run: func(c *explore.Check, thorough bool) {
-			c.Rule = "every parrot with a real ECH extension and HelloGolang x server {accept, accept after HRR, reject with retry configs, reject without, each rejection also after a HelloRetryRequest} x ECH config variants (config id 7/0/255, AEAD list all/AES-128-GCM/ChaCha20, max name length 32/0/255, public name 1 B / 55 B, the config alone / followed by a config for a foreign key / preceded by an entry of an unknown version; <=2 deviations quick, full product thorough) x secret name {short, 253 B} x {Handshake alone, BuildHandshakeState then Handshake}: the secret name occurs nowhere in the client's byte stream, every outer hello is valid with SNI == public name and an outer ECH extension of the config id, accepting servers complete with ECHAccepted and ServerName on both sides and the decrypted inner hello naming the secret, rejecting servers yield ECHRejectionError with exactly the server's retry configs. distinct = case"
+			c.Rule = "every parrot with a real ECH extension and HelloGolang x server {accept, accept after HRR, reject with retry configs, reject without, each rejection also after a HelloRetryRequest} x ECH config variants (config id 7/0/255, AEAD list all/AES-128-GCM/ChaCha20, max name length 32/0/255, public name 1 B / 55 B, the config alone / followed by a config for a foreign key / preceded by an entry of an unknown version; <=2 deviations quick, full product thorough) x secret name {short, 253 B} x {Handshake alone, BuildHandshakeState then Handshake} x {name from the Config, another secret name set with SetSNI afterwards (neither name may appear)}: the secret name occurs nowhere in the client's byte stream, every outer hello is valid with SNI == public name and an outer ECH extension of the config id, accepting servers complete with ECHAccepted and ServerName on both sides and the decrypted inner hello naming the secret, rejecting servers yield ECHRejectionError with exactly the server's retry configs. distinct = case"
 			c.Assumptions = []string{"inner/outer extension expansion is judged through the server's transcript check (a wrong expansion fails Finished)", "certificate verification disabled here (C14 covers it)"}
 			runAll(c, c15Scenarios(thorough), 0)
 			c.Gate(c.Total.Counters["accepted"] > 30, "non-vacuity: %d accepted", c.Total.Counters["accepted"])
